@@ -4,7 +4,7 @@
 NOT_YET = {
 }
 
-UNITS = ['types', 'sym', 'lex', 'parser', 'sema', 'short']
+UNITS = ['types', 'sym', 'lex', 'parser', 'sema', 'short', 'astx']
 
 PROPS = {
     'C20': dict(
@@ -99,7 +99,7 @@ PROPS = {
         assumptions=['source text <= 2^31 - 1 bytes', 'Input built by LexedStr::to_input: no EOF kind inside, jointness bits allocated (wf; established in the LEX unit chain lemma / SHORT unit)'],
     ),
     'C05': dict(
-        units=['parser'],
+        units=['parser', 'astx'],
         decided=[
             'current_op returns, for the operator at the cursor, the binding power and associativity of the table bp_of, and that operator is the composite token actually present (so the following bump consumes exactly it)',
             'outside the three recorded carve-outs bp_of orders the 19 binary operators exactly as the OpenQASM 3 table; all are left-associative; compound assignments are right-associative and lowest',
@@ -120,7 +120,7 @@ PROPS = {
         explanation='Verus.',
     ),
     'C03': dict(
-        units=['sema', 'sym'],
+        units=['sema', 'sym', 'astx'],
         decided=[
             'every unwrap / panic! / unreachable! / todo! / index site inside the analyser functions under contract (closure-free part of syntax_to_semantics.rs, all of asg.rs) is one of: proved unreachable, assumed-parser (listed accessor / arm assumptions: hold on diagnostic-free trees), or a recorded known finding with a witness program',
             'SymbolTable::exit_scope / enter_scope assertions and Program::set_version / AnnotatedStmt::new panics are preconditions (call sites in unverified functions: not decided)',
@@ -132,7 +132,7 @@ PROPS = {
         explanation='Verus over an opaque, mechanically generated AST view (accessors may return anything unless listed as assumed-parser).',
     ),
     'C06': dict(
-        units=['sema'],
+        units=['sema', 'astx'],
         decided=[
             'binary_op_to_asg_type maps each syntactic operator to the graph operator of the same meaning (carve-out: **)',
             'for every ASG node: a constructor parameter named like a field initialises that field, an accessor named like a field returns it (83 contracts generated from struct definitions and signatures, never from bodies)',
